@@ -5,7 +5,7 @@
 From Coq Require Import ZArith List.
 From MomoCommon Require Import GenPrelude.
 From C16 Require Gen_Log2_64 Gen_Log2_32 Gen_SegSqrt Gen_SegCnst Fast Log2_Proofs SegMath SegSqrt_Proofs SegCnst_Proofs
-  SegModel SegModel_Inst.
+  SegModel SegModel_Inst Gen_ArrSqrt Gen_ArrCnst Arr_Proofs Arr_Inst.
 Local Open Scope Z_scope.
 
 (* UIntMath<size_t>::Log2 (de Bruijn multiplication + table after the or-shift cascade) is the integer
@@ -266,3 +266,105 @@ Theorem C16_cnst_wreachable_inv : forall L, 0 <= L <= 62 -> forall w,
   SegModel.winv (Gen_SegCnst.GetSegItemIndexes L) SegModel_Inst.maxi (SegModel_Inst.SCc L) w.
 Proof. exact SegModel_Inst.cnst_wreachable_inv. Qed.
 Print Assumptions C16_cnst_wreachable_inv.
+
+(* ---- round 4: the container's OWN functions, regenerated by cxx2coq from SegmentedArray.h (Gen_ArrSqrt / Gen_ArrCnst).
+   State: mSegments as (index -> segment pointer) and its GetCount() as mSegments_n, mCount; `alloc` = the allocator's answers. ---- *)
+
+(* the sqrt and the cnst instantiation of SegmentedArray translate to literally the same Gallina (sizing functions are parameters) *)
+Theorem C16_arr_same_code :
+  Gen_ArrSqrt.GetCapacity = Gen_ArrCnst.GetCapacity /\ Gen_ArrSqrt.pvIncCapacity = Gen_ArrCnst.pvIncCapacity /\
+  Gen_ArrSqrt.pvDecCapacity = Gen_ArrCnst.pvDecCapacity /\ Gen_ArrSqrt.Reserve = Gen_ArrCnst.Reserve /\
+  Gen_ArrSqrt.ShrinkTo = Gen_ArrCnst.ShrinkTo /\ Gen_ArrSqrt.ShrinkFit = Gen_ArrCnst.ShrinkFit /\
+  Gen_ArrSqrt.AddBackCrt = Gen_ArrCnst.AddBackCrt /\ Gen_ArrSqrt.Clear = Gen_ArrCnst.Clear /\
+  Gen_ArrSqrt.pvDecCount = Gen_ArrCnst.pvDecCount /\ Gen_ArrSqrt.pvIncCount = Gen_ArrCnst.pvIncCount /\
+  Gen_ArrSqrt.SetCountCrt = Gen_ArrCnst.SetCountCrt.
+Proof. exact Arr_Proofs.same_code. Qed.
+Print Assumptions C16_arr_same_code.
+
+(* FRAME, for arbitrary sizing functions: pvIncCapacity terminates without a failed assertion, appends alloc(n), alloc(n+1), ... up to
+   the target segment count and never writes a table entry below the old segment count *)
+Theorem C16_arr_pvIncCapacity_frame : forall seg alloc segs n c init cap,
+  0 <= n < 2 ^ 63 -> init <= cap -> 0 <= fst (seg cap) < 2 ^ 63 ->
+  exists segs', Gen_ArrSqrt.pvIncCapacity seg alloc segs n c init cap = Ok (tt, segs', Z.max n (Arr_Proofs.target seg cap)) /\
+    (forall i, i < n -> segs' i = segs i) /\ (forall i, n <= i < Arr_Proofs.target seg cap -> segs' i = alloc i).
+Proof. exact Arr_Proofs.pvIncCapacity_spec. Qed.
+Print Assumptions C16_arr_pvIncCapacity_frame.
+
+(* pvDecCapacity keeps exactly target(capacity) segments (whole segments only) and returns no table: nothing is written *)
+Theorem C16_arr_pvDecCapacity_spec : forall seg idx segs n c cap,
+  0 <= n < 2 ^ 63 -> cap <= idx n 0 -> 0 <= fst (seg cap) < 2 ^ 63 -> Arr_Proofs.target seg cap <= n ->
+  Gen_ArrSqrt.pvDecCapacity seg idx segs n c cap = Ok (tt, Arr_Proofs.target seg cap).
+Proof. exact Arr_Proofs.pvDecCapacity_spec. Qed.
+Print Assumptions C16_arr_pvDecCapacity_spec.
+
+(* AddBackCrt: existing slot -> only mCount changes; otherwise (itemIndex must be 0, else the MOMO_ASSERT fails = Stuck) one segment
+   alloc(n) is stored at position n; no entry below n is written *)
+Theorem C16_arr_AddBackCrt_spec : forall seg alloc segs n c, 0 <= n < 2 ^ 63 -> 0 <= c < 2 ^ 63 ->
+  (fst (seg c) < n -> Gen_ArrSqrt.AddBackCrt seg alloc segs n c = Ok (tt, segs, n, c + 1)) /\
+  (n <= fst (seg c) -> snd (seg c) = 0 -> Gen_ArrSqrt.AddBackCrt seg alloc segs n c = Ok (tt, upd segs n (alloc n), n + 1, c + 1)) /\
+  (n <= fst (seg c) -> snd (seg c) <> 0 -> Gen_ArrSqrt.AddBackCrt seg alloc segs n c = Stuck).
+Proof. exact Arr_Proofs.AddBackCrt_spec. Qed.
+Print Assumptions C16_arr_AddBackCrt_spec.
+
+(* with the regenerated sqrt sizing functions (every L <= 62, sizes < 2^62), on every state satisfying the invariant
+   "every element's segment exists" (ginv): the REAL Reserve / Shrink(capacity) / AddBackCrt never fail an assertion or run out of
+   fuel, never write an existing table entry (address stability), produce the hand model's segment count, and keep the invariant *)
+Theorem C16_sqrt_arr_Reserve : forall L, 0 <= L <= 62 -> forall alloc segs n c cap,
+  Arr_Proofs.ginv (Gen_SegSqrt.GetSegItemIndexes L) SegModel_Inst.maxi (SegModel_Inst.SCq L) n c -> 0 <= cap < SegModel_Inst.maxi ->
+  exists segs' n', Gen_ArrSqrt.Reserve (Gen_SegSqrt.GetSegItemIndexes L) (Gen_SegSqrt.GetIndex L) alloc segs n c cap = Ok (tt, segs', n') /\
+    (forall i, i < n -> segs' i = segs i) /\ n <= n' /\
+    n' = SegModel.len (SegModel.reserve (Gen_SegSqrt.GetSegItemIndexes L) (Gen_SegSqrt.GetIndex L) (Arr_Proofs.mst n c) cap) /\
+    Arr_Proofs.ginv (Gen_SegSqrt.GetSegItemIndexes L) SegModel_Inst.maxi (SegModel_Inst.SCq L) n' c.
+Proof. exact Arr_Inst.sqrt_Reserve_refines. Qed.
+Print Assumptions C16_sqrt_arr_Reserve.
+
+Theorem C16_sqrt_arr_Shrink : forall L, 0 <= L <= 62 -> forall segs n c cap,
+  Arr_Proofs.ginv (Gen_SegSqrt.GetSegItemIndexes L) SegModel_Inst.maxi (SegModel_Inst.SCq L) n c -> 0 <= cap < SegModel_Inst.maxi ->
+  Gen_SegSqrt.GetIndex L n 0 < SegModel_Inst.maxi ->
+  exists n', Gen_ArrSqrt.ShrinkTo (Gen_SegSqrt.GetSegItemIndexes L) (Gen_SegSqrt.GetIndex L) segs n c cap = Ok (tt, n') /\ n' <= n /\
+    (exists st', SegModel.step (Gen_SegSqrt.GetSegItemIndexes L) (Gen_SegSqrt.GetIndex L) (Arr_Proofs.mst n c) (SegModel.ShrinkTo cap) = Some st' /\
+                 n' = SegModel.len st') /\
+    Arr_Proofs.ginv (Gen_SegSqrt.GetSegItemIndexes L) SegModel_Inst.maxi (SegModel_Inst.SCq L) n' c.
+Proof. exact Arr_Inst.sqrt_ShrinkTo_refines. Qed.
+Print Assumptions C16_sqrt_arr_Shrink.
+
+Theorem C16_sqrt_arr_AddBackCrt : forall L, 0 <= L <= 62 -> forall alloc segs n c,
+  Arr_Proofs.ginv (Gen_SegSqrt.GetSegItemIndexes L) SegModel_Inst.maxi (SegModel_Inst.SCq L) n c -> c + 1 < SegModel_Inst.maxi ->
+  exists segs' n', Gen_ArrSqrt.AddBackCrt (Gen_SegSqrt.GetSegItemIndexes L) alloc segs n c = Ok (tt, segs', n', c + 1) /\
+    (forall i, i < n -> segs' i = segs i) /\ (n' = n \/ (n' = n + 1 /\ segs' n = alloc n)) /\
+    Arr_Proofs.ginv (Gen_SegSqrt.GetSegItemIndexes L) SegModel_Inst.maxi (SegModel_Inst.SCq L) n' (c + 1).
+Proof. exact Arr_Inst.sqrt_AddBackCrt_refines. Qed.
+Print Assumptions C16_sqrt_arr_AddBackCrt.
+
+Theorem C16_sqrt_arr_ginv_empty : forall L, 0 <= L <= 62 ->
+  Arr_Proofs.ginv (Gen_SegSqrt.GetSegItemIndexes L) SegModel_Inst.maxi (SegModel_Inst.SCq L) 0 0.
+Proof. exact Arr_Inst.sqrt_ginv_empty. Qed.
+Print Assumptions C16_sqrt_arr_ginv_empty.
+
+(* the same for cnst sizing (about Gen_ArrCnst, the translation of the cnst instantiation) *)
+Theorem C16_cnst_arr_Reserve : forall L, 0 <= L <= 62 -> forall alloc segs n c cap,
+  Arr_Proofs.ginv (Gen_SegCnst.GetSegItemIndexes L) SegModel_Inst.maxi (SegModel_Inst.SCc L) n c -> 0 <= cap < SegModel_Inst.maxi ->
+  exists segs' n', Gen_ArrCnst.Reserve (Gen_SegCnst.GetSegItemIndexes L) (Gen_SegCnst.GetIndex L) alloc segs n c cap = Ok (tt, segs', n') /\
+    (forall i, i < n -> segs' i = segs i) /\ n <= n' /\
+    n' = SegModel.len (SegModel.reserve (Gen_SegCnst.GetSegItemIndexes L) (Gen_SegCnst.GetIndex L) (Arr_Proofs.mst n c) cap) /\
+    Arr_Proofs.ginv (Gen_SegCnst.GetSegItemIndexes L) SegModel_Inst.maxi (SegModel_Inst.SCc L) n' c.
+Proof. exact Arr_Inst.cnst_Reserve_refines. Qed.
+Print Assumptions C16_cnst_arr_Reserve.
+
+Theorem C16_cnst_arr_Shrink : forall L, 0 <= L <= 62 -> forall segs n c cap,
+  Arr_Proofs.ginv (Gen_SegCnst.GetSegItemIndexes L) SegModel_Inst.maxi (SegModel_Inst.SCc L) n c -> 0 <= cap < SegModel_Inst.maxi ->
+  Gen_SegCnst.GetIndex L n 0 < SegModel_Inst.maxi ->
+  exists n', Gen_ArrCnst.ShrinkTo (Gen_SegCnst.GetSegItemIndexes L) (Gen_SegCnst.GetIndex L) segs n c cap = Ok (tt, n') /\ n' <= n /\
+    (exists st', SegModel.step (Gen_SegCnst.GetSegItemIndexes L) (Gen_SegCnst.GetIndex L) (Arr_Proofs.mst n c) (SegModel.ShrinkTo cap) = Some st' /\
+                 n' = SegModel.len st') /\
+    Arr_Proofs.ginv (Gen_SegCnst.GetSegItemIndexes L) SegModel_Inst.maxi (SegModel_Inst.SCc L) n' c.
+Proof. exact Arr_Inst.cnst_ShrinkTo_refines. Qed.
+Print Assumptions C16_cnst_arr_Shrink.
+
+Theorem C16_cnst_arr_AddBackCrt : forall L, 0 <= L <= 62 -> forall alloc segs n c,
+  Arr_Proofs.ginv (Gen_SegCnst.GetSegItemIndexes L) SegModel_Inst.maxi (SegModel_Inst.SCc L) n c -> c + 1 < SegModel_Inst.maxi ->
+  exists segs' n', Gen_ArrCnst.AddBackCrt (Gen_SegCnst.GetSegItemIndexes L) alloc segs n c = Ok (tt, segs', n', c + 1) /\
+    (forall i, i < n -> segs' i = segs i) /\ (n' = n \/ (n' = n + 1 /\ segs' n = alloc n)) /\
+    Arr_Proofs.ginv (Gen_SegCnst.GetSegItemIndexes L) SegModel_Inst.maxi (SegModel_Inst.SCc L) n' (c + 1).
+Proof. exact Arr_Inst.cnst_AddBackCrt_refines. Qed.
+Print Assumptions C16_cnst_arr_AddBackCrt.
